@@ -510,12 +510,24 @@ def parseJobs (s : String) : List Job × List Job :=
     | _ => none
   ((js.filter (·.1 = "S")).map (·.2), (js.filter (·.1 = "C")).map (·.2))
 
+/-- tie G: `Server.Callback` as translated from the working tree on this run, on the same login (the differential run uses
+    IP literals, which `net.LookupIP` returns as they are; `user.New` keeps the name) -/
+def c09translated (sch cont : List Job) (u pw ip : Bytes) : String :=
+  let gj := fun (j : Job) => ({ Name := j.name, AllowFrom := j.allowFrom } : Go.GoJob)
+  let ext : Go.Ext := { parseFloat := fun _ => (0, none), schedule := sch.map gj, continuous := cont.map gj }
+  match Gen.Auth.Server.Callback ext {} { user := u, remoteAddr := ip ++ str ":40000" } pw with
+  | .ok (_, _, none) => "accept"
+  | .ok (_, _, some _) => "reject"
+  | _ => "PANIC"
+
 def opC09Password : List String → Res
   | [u, pw, ip, jobs] => match unhex u, unhex pw, unhex ip with
     | some u, some pw, some ip =>
       let (sch, cont) := parseJobs jobs
       let r := passwordCallback (fun a => [a]) sch cont u pw ip
       let r := if r then "accept" else "reject"
+      let gen := c09translated sch cont u pw ip
+      if gen ≠ r then { m := "TRANSLATED-CALLBACK-DIFFERS-FROM-MODEL:" ++ gen, s := r, t := "translated-differs" } else
       { m := r, s := r, t := joinWith "," ((if r = "accept" then ["granted"] else [])
           ++ (if u = Facts.healthUserBytes then ["health"] else if u = Facts.scheduleUserBytes then ["schedule"]
               else if u = Facts.continuousUserBytes then ["continuous"] else ["other"])) }
@@ -527,7 +539,9 @@ def opC09PwSeq : List String → Res
     let (sch, cont) := parseJobs jobs
     let rs := (attempts.splitOn ",").map fun at' => match at'.splitOn ":" with
       | [u, pw, ip] => (match unhex u, unhex pw, unhex ip with
-        | some u, some pw, some ip => if passwordCallback (fun a => [a]) sch cont u pw ip then "accept" else "reject"
+        | some u, some pw, some ip =>
+          let r := if passwordCallback (fun a => [a]) sch cont u pw ip then "accept" else "reject"
+          if c09translated sch cont u pw ip = r then r else "TRANSLATED-CALLBACK-DIFFERS-FROM-MODEL"
         | _, _, _ => "bad")
       | _ => "bad"
     let r := joinWith "," rs
